@@ -45,6 +45,11 @@ var accountParts = []accountPart{
 	{"a{2,3}", []string{"a", "aa", "aaa", "aaaa"}},
 	{"a+b*", []string{"a", "aab", "b", "abx", "aabb"}},
 	{"my account [0-9]", []string{"my account 1", "my account 12", "my account"}},
+	// a `$` that is part of the name, not an anchor
+	{`a\$`, []string{"a$", "a$x", "a", "xa$", "a$$"}},
+	{`acc\$[0-9]*\$`, []string{"acc$$", "acc$1$", "acc$1$x", "acc$1"}},
+	// a literal backslash followed by a real anchor
+	{`a\\$`, []string{`a\`, `a\x`, "a", `a\$`}},
 }
 
 var alternationParts = []accountPart{
